@@ -6,12 +6,12 @@ package grpc
 // This file contains comments only and is compiled only with the build tag `verif`.
 
 // ---------------------------------------------------------------------------------------------
-// Ghost model. A bytes.Buffer is a byte queue of which only the length matters here (glen). Calls of the gRPC
+// Ghost model. A bytes.Buffer is a byte queue of which only the length matters here (blen). Calls of the gRPC
 // processor are counted: nMsg messages, nEnd of them carrying end-of-stream; lastMsg* describe the latest call.
 // Codecs are opaque; what is tracked is the wire-format family each decoder reads / each encoder writes
 // (10 gzip, 20 deflate, 31 snappy framed stream, 32 snappy block).
 
-//@ ghost field bytes.Buffer.glen int
+//@ ghost field bytes.Buffer.blen int
 //@ ghost var nMsg int
 //@ ghost var nEnd int
 //@ ghost var lastMsgEnd bool
@@ -23,29 +23,29 @@ package grpc
 //@ pred fmtFor(enc Encoding) = ite(enc == Gzip, 10, ite(enc == Deflate, 20, ite(enc == Snappy, 31, 0)))
 
 //@ extern func (*bytes.Buffer).Write
-//@   modifies b.glen
-//@   ensures b.glen == old(b.glen) + len(p) && n == len(p) && err == nil
+//@   modifies b.blen
+//@   ensures b.blen == old(b.blen) + len(p) && n == len(p) && err == nil
 //@ extern func (*bytes.Buffer).WriteByte
-//@   modifies b.glen
-//@   ensures b.glen == old(b.glen) + 1 && result == nil
+//@   modifies b.blen
+//@   ensures b.blen == old(b.blen) + 1 && result == nil
 //@ extern func (*bytes.Buffer).Len
-//@   ensures result == b.glen
+//@   ensures result == b.blen
 //@ extern func (*bytes.Buffer).Bytes
-//@   ensures len(result) == b.glen
+//@   ensures len(result) == b.blen
 //@ extern func (*bytes.Buffer).ReadByte
-//@   modifies b.glen
-//@   ensures old(b.glen) > 0 ==> b.glen == old(b.glen) - 1 && result1 == nil
-//@   ensures old(b.glen) <= 0 ==> b.glen == old(b.glen)
+//@   modifies b.blen
+//@   ensures old(b.blen) > 0 ==> b.blen == old(b.blen) - 1 && result1 == nil
+//@   ensures old(b.blen) <= 0 ==> b.blen == old(b.blen)
 //@ extern func (*bytes.Buffer).Read
-//@   modifies b.glen, p[*]
-//@   ensures n == min(len(p), old(b.glen)) && b.glen == old(b.glen) - n
+//@   modifies b.blen, p[*]
+//@   ensures n == min(len(p), old(b.blen)) && b.blen == old(b.blen) - n
 //@ extern func binary.Read
-//@   modifies as(r, *bytes.Buffer).glen, *as(data, *uint32)
-//@   ensures old(as(r, *bytes.Buffer).glen) >= 4 ==> result == nil
-//@   ensures result == nil ==> as(r, *bytes.Buffer).glen == old(as(r, *bytes.Buffer).glen) - 4
+//@   modifies as(r, *bytes.Buffer).blen, *as(data, *uint32)
+//@   ensures old(as(r, *bytes.Buffer).blen) >= 4 ==> result == nil
+//@   ensures result == nil ==> as(r, *bytes.Buffer).blen == old(as(r, *bytes.Buffer).blen) - 4
 //@ extern func binary.Write
-//@   modifies as(w, *bytes.Buffer).glen
-//@   ensures typeis(data, uint32) ==> as(w, *bytes.Buffer).glen == old(as(w, *bytes.Buffer).glen) + 4
+//@   modifies as(w, *bytes.Buffer).blen
+//@   ensures typeis(data, uint32) ==> as(w, *bytes.Buffer).blen == old(as(w, *bytes.Buffer).blen) + 4
 
 //@ extern func gzip.NewReader
 //@   modifies lastDecFmt
@@ -98,24 +98,24 @@ package grpc
 // ---------------------------------------------------------------------------------------------
 // adapter.Data: reassembly of length-prefixed messages across arbitrary DATA boundaries.
 
-//@ pred adapterOK(a *adapter) = a != nil && a.enabled != nil && a.processor != nil && a.sink != nil && (a.state == readingMetadata || a.state == readingMessageData) && a.buffer.glen >= 0 && a.buffer.glen < 4294967296
+//@ pred adapterOK(a *adapter) = a != nil && a.enabled != nil && a.processor != nil && a.sink != nil && (a.state == readingMetadata || a.state == readingMessageData) && a.buffer.blen >= 0 && a.buffer.blen < 4294967296
 
 //@ func (*adapter).Data
 //@   serves C11
 //@   safe make
-//@   requires adapterOK(a) && a.buffer.glen + len(data) < 4294967296
-//@   modifies a.buffer.glen, a.state, a.compressed, a.length, nMsg, nEnd, lastMsgEnd, lastMsgNil, lastMsgLen, lastDecFmt, pcN, pcKind, pcSelf, pcEnd, pcData
+//@   requires adapterOK(a) && a.buffer.blen + len(data) < 4294967296
+//@   modifies a.buffer.blen, a.state, a.compressed, a.length, nMsg, nEnd, lastMsgEnd, lastMsgNil, lastMsgLen, lastDecFmt, pcN, pcKind, pcSelf, pcEnd, pcData
 //@   ensures[state-well-formed] adapterOK(a)
 //@   ensures[non-grpc-passes-through] *a.enabled <= 0 ==> pcN == old(pcN) + 1 && pcKind == 1 && pcSelf == a.sink && pcData == data && pcEnd == streamEnded && nMsg == old(nMsg)
 //@   ensures[no-message-withheld] *a.enabled > 0 && result == nil ==>
-//@        (a.state == readingMetadata && a.buffer.glen < 5) || (a.state == readingMessageData && a.buffer.glen < a.length)
-//@   ensures[end-of-stream-delivered-once] *a.enabled > 0 && result == nil && streamEnded && a.state == readingMetadata && a.buffer.glen == 0 ==> nEnd == old(nEnd) + 1 && lastMsgEnd
+//@        (a.state == readingMetadata && a.buffer.blen < 5) || (a.state == readingMessageData && a.buffer.blen < a.length)
+//@   ensures[end-of-stream-delivered-once] *a.enabled > 0 && result == nil && streamEnded && a.state == readingMetadata && a.buffer.blen == 0 ==> nEnd == old(nEnd) + 1 && lastMsgEnd
 //@   ensures[end-of-stream-at-most-once-and-last] nEnd <= old(nEnd) + 1 && (nEnd == old(nEnd) + 1 ==> lastMsgEnd)
 //@   ensures[no-end-without-flag] !streamEnded ==> nEnd == old(nEnd)
-//@   ensures[bare-end-of-stream-adds-no-message] *a.enabled > 0 && result == nil && streamEnded && len(data) == 0 && old(a.state == readingMetadata && a.buffer.glen == 0) ==>
+//@   ensures[bare-end-of-stream-adds-no-message] *a.enabled > 0 && result == nil && streamEnded && len(data) == 0 && old(a.state == readingMetadata && a.buffer.blen == 0) ==>
 //@        nMsg == old(nMsg) + 1 && lastMsgNil && lastMsgEnd
 //@   loop 0 invariant adapterOK(a) && *a.enabled > 0 && nEnd == old(nEnd)
-//@   loop 0 invariant nMsg >= old(nMsg) && (len(old(data)) == 0 && old(a.state == readingMetadata && a.buffer.glen == 0) ==> nMsg == old(nMsg) && a.state == readingMetadata && a.buffer.glen == 0)
+//@   loop 0 invariant nMsg >= old(nMsg) && (len(old(data)) == 0 && old(a.state == readingMetadata && a.buffer.blen == 0) ==> nMsg == old(nMsg) && a.state == readingMetadata && a.buffer.blen == 0)
 //@   at call 1 of Message before assert[message-has-prefixed-length] a.compressed && a.encoding == Identity || !a.compressed ==> len(data) == a.length
 //@   at call 1 of Message before assert[decoded-with-stream-encoding] a.compressed && a.encoding != Identity ==> lastDecFmt == fmtFor(a.encoding)
 
@@ -125,6 +125,7 @@ package grpc
 //@ func (*emitter).Message
 //@   serves C11
 //@   requires e != nil && e.adapter != nil && e.sink != nil
+//@   requires e.adapter.encoding == Identity || e.adapter.encoding == Gzip || e.adapter.encoding == Deflate || e.adapter.encoding == Snappy
 //@   modifies lastEncFmt, pcN, pcKind, pcSelf, pcEnd, pcData
 //@   ensures[one-data-frame] result == nil ==> pcN == old(pcN) + 1 && pcKind == 1 && pcSelf == e.sink && pcEnd == streamEnded
 //@   ensures[bare-end-of-stream-adds-no-message] data == nil && streamEnded && result == nil ==> len(pcData) == 0
